@@ -126,8 +126,8 @@ static void run_case(int algo, bool bounded, Prob& p, int start_kind, int settin
   // projected start, for "does not exceed the starting cost"
   Vector xs(n); xs = x; if (bounded) for (int i = 0; i < n; ++i) xs(i) = std::max(p.lo(i), std::min(x(i), p.hi(i)));
   double start_cost_true = p.cost_only(xs);
-  p.record = (algo >= 1 || bounded); p.evlog.clear();
-  if (algo >= 1 || bounded) {
+  p.record = true; p.evlog.clear();
+  {
     std::printf("P %d %d %c %d %d %.17g %.17g %d |", algo, (int)bounded, p.kind, n, maxit, thr, ((setting / 6) % 2 == 1) ? 0.5 : -1.0, eus);
     for (int i = 0; i < n; ++i) for (int j = 0; j < n; ++j) std::printf(" %.17g", p.A(i, j));
     std::printf(" |"); for (int i = 0; i < n; ++i) std::printf(" %.17g", p.b(i));
